@@ -569,6 +569,16 @@ fn logline(args: &[String]) -> i32 {
     0
 }
 
+/// slog MS FILE TEXT... [--status S]: sleep, then atomically append one line (a whole background job as ONE external command)
+fn slog(args: &[String]) -> i32 {
+    let ms: u64 = args.first().and_then(|s| s.parse().ok()).unwrap_or(0);
+    std::thread::sleep(std::time::Duration::from_millis(ms));
+    if args.len() >= 3 {
+        append_line(&args[1], &args[2..].join(" "));
+    }
+    0
+}
+
 fn main() {
     let mut raw: Vec<std::ffi::OsString> = std::env::args_os().collect();
     let name0 = std::path::Path::new(&raw[0])
@@ -599,6 +609,7 @@ fn main() {
         "msleep" => msleep(&sargs),
         "logline" => logline(&sargs),
         "wr" => wr(&sargs),
+        "slog" => slog(&sargs),
         "dumpf" => dumpf(&sargs),
         other => {
             eprintln!("vtool: unknown tool {other}");
